@@ -78,7 +78,11 @@ PROPS = {
                       "must be the previous one plus/minus the interval as Ops.tla defines addition (so month/year intervals are covered), "
                       "stopping is accepted only with exactly n points including the anchor, and the three notations of an exact finite series "
                       "must be equal and iterate identically.",
-        "drivers": ["c12"], "mc": [], "expect_ops": ["IterOpen", "IterNext", "IterStop", "IterAbandon", "Notations"],
+        "drivers": ["c12"],
+        "mc": [{"module": "MC_C12.tla", "cfg": "MC_C12.cfg"}, {"module": "MC_C12.tla", "cfg": "MC_C12_nominal.cfg"},
+               {"module": "MC_C12.tla", "cfg": "MC_C12_twin1.cfg", "expect_violation": True},
+               {"module": "MC_C12.tla", "cfg": "MC_C12_twin2.cfg", "expect_violation": True, "tier": "thorough"},
+               {"module": "MC_C12.tla", "cfg": "MC_C12_known.cfg", "expect_violation": True}], "expect_ops": ["IterOpen", "IterNext", "IterStop", "IterAbandon", "Notations"],
         "rule": "one case = one recurrence iterated to exhaustion (bounded, n <= 13) or 12 steps (unbounded), or one triple of notations; "
                 "anchors come from the boundary generator, so every case is counted non-trivial",
         "assumptions": TRUST,
@@ -88,7 +92,9 @@ PROPS = {
         "level_text": "Each recurrence is first iterated step by step (validated as in C12, which fills the specification's `ser` state); "
                       "get_is_valid, r[i], get_next, get_prev and get_first_after are then judged by TLC against that series on the timeline, "
                       "for members re-expressed in other offsets/representations, points 1 s either side, before the first and after the last.",
-        "drivers": ["c13"], "mc": [], "expect_ops": ["IterOpen", "IterNext", "Query"],
+        "drivers": ["c13"],
+        "mc": [{"module": "MC_C12.tla", "cfg": "MC_C12.cfg"},
+               {"module": "MC_C12.tla", "cfg": "MC_C12_twin3.cfg", "expect_violation": True}], "expect_ops": ["IterOpen", "IterNext", "Query"],
         "rule": "one case = one recurrence with ~5 probes per member x 5 query kinds; all cases non-trivial",
         "assumptions": TRUST,
     },
@@ -162,7 +168,11 @@ PROPS = {
         "level_text": "For every recorded t + p (either order) TLC checks the result matches t's fields read in the right offset, is not earlier "
                       "than p, is the EARLIEST such date-time (no matching day in between, least matching time of day), carries p's offset, is "
                       "valid, and that applying t again changes nothing; every call runs under a 5 s watchdog.",
-        "drivers": ["c20"], "mc": [], "expect_ops": ["TruncAdd"],
+        "drivers": ["c20"],
+        "mc": [{"module": "MC_C20.tla", "cfg": "MC_C20.cfg"},
+               {"module": "MC_C20.tla", "cfg": "MC_C20_twin1.cfg", "expect_violation": True},
+               {"module": "MC_C20.tla", "cfg": "MC_C20_twin2.cfg", "expect_violation": True},
+               {"module": "MC_C20.tla", "cfg": "MC_C20_known.cfg", "expect_violation": True}], "expect_ops": ["TruncAdd"],
         "rule": "one case = one truncated addition; shapes h/hm/hms/m/ms/s/none x day designators incl. day 29-31, 366, week 53; all non-trivial",
         "assumptions": TRUST,
     },
